@@ -11,7 +11,9 @@ THEOREMS = ['Tbox.C13.' + t for t in [
     'C13_one_prompt_per_enter',
     'C13_history', 'C13_history_never_stored', 'C13_history_rerun',
     'C13_total', 'C13_total_legacy_counterexample',
+    'C13_sessions_independent',
     'C13_telnet_resumable', 'C13_telnet_in_bounds', 'C13_telnet_legacy_counterexample',
+    'C13_split_unbalanced', 'C13_split_words', 'C13_split_quoted',
 ]]
 
 SOURCES = [
@@ -20,15 +22,12 @@ SOURCES = [
     'modules/terminal/impl/terminal_commands.cpp', 'modules/terminal/impl/key_event_scanner.cpp',
     'modules/terminal/impl/terminal_nodes.cpp', 'modules/terminal/impl/dir_node.cpp', 'modules/terminal/impl/func_node.cpp',
     'modules/terminal/impl/service/telnetd.cpp', 'modules/terminal/impl/service/tcp_rpc.cpp',
+    'modules/terminal/impl/service/stdio.cpp',
     'modules/util/split_cmdline.cpp', 'modules/util/string.cpp', 'modules/util/buffer.cpp', 'modules/util/fd.cpp', 'modules/util/fs.cpp',
-    'modules/event/common_loop.cpp', 'modules/event/common_loop_run.cpp', 'modules/event/common_loop_signal.cpp',
-    'modules/event/common_loop_timer.cpp', 'modules/event/loop.cpp', 'modules/event/misc.cpp',
-    'modules/event/signal_event_impl.cpp', 'modules/event/stat.cpp', 'modules/event/timer_event_impl.cpp',
-    'modules/event/engines/select/fd_event.cpp', 'modules/event/engines/select/loop.cpp',
-    'modules/event/engines/epoll/fd_event.cpp', 'modules/event/engines/epoll/loop.cpp',
-    'modules/network/buffered_fd.cpp', 'modules/network/ip_address.cpp', 'modules/network/sockaddr.cpp',
-    'modules/network/socket_fd.cpp', 'modules/network/tcp_acceptor.cpp', 'modules/network/tcp_connection.cpp',
-    'modules/network/tcp_server.cpp', 'modules/base/log_output.cpp'] + vlib.BASE_SOURCES
+    # network: NOT tcp_server.cpp (the harness defines a recording TcpServer); the stdio service runs on the real
+    # StdioStream / BufferedFd over redirected fds
+    'modules/network/buffered_fd.cpp', 'modules/network/stdio_stream.cpp', 'modules/network/ip_address.cpp',
+    'modules/network/sockaddr.cpp'] + vlib.EVENT_SOURCES + vlib.BASE_SOURCES
 SOURCES = list(dict.fromkeys(SOURCES))      # BASE_SOURCES may already contain some of them
 FLAVOUR = 'asan'
 BATCH = 100
@@ -316,18 +315,113 @@ def gen_telnet(rng):
     return ops
 
 
+def session_line(rng, names, who, i):
+    """a command line that leaves a trace of who typed it (so histories of different sessions differ)"""
+    r = rng.random()
+    if r < 0.45: return 'p %s-%d' % (who, i)
+    if r < 0.55: return 'history'
+    if r < 0.62: return '!!'
+    if r < 0.72: return '!' + rng.choice(['0', '1', '-1', '-2', '5', '99999999999', 'x'])
+    if r < 0.80: return rng.choice(['exit', 'quit', 'pwd;exit', 'exit;exit'])
+    if r < 0.86: return 'cd ' + rng.choice(names + ['/', '..'])
+    if r < 0.90: return rng.choice(['pwd', 'ls', 'tree', 'help'])
+    return rand_line(rng, names)
+
+
+def gen_multi(rng, nsteps):
+    """several sessions on one terminal, interleaved: direct slots 0-3, telnet clients 4 and 5, raw-TCP client 6, stdio 7"""
+    ops, names = gen_tree(rng)
+    ops += ['mkfunc']
+    nfunc = sum(1 for o in ops if o in ('mkdir', 'mkfunc'))
+    ops += ['mount 0 %d %s' % (nfunc, hx('p'))]
+    active = []
+    count = {}
+    for _ in range(nsteps):
+        r = rng.random()
+        if r < 0.12 or not active:
+            k = rng.choice([0, 1, 2, 3, 4, 4, 5, 5, 6, 6, 7])
+            if k < 4: ops += ['sel %d' % k, 'open %d' % rng.choice([0, 1, 1, 2, 3])]
+            elif k < 7: ops.append('xconn %d' % k)
+            else: ops.append('sstart')
+            if k not in active: active.append(k)
+            continue
+        k = rng.choice(active)
+        count[k] = count.get(k, 0) + 1
+        data = session_line(rng, names, 's%d' % k, count[k]).encode('latin1') + rng.choice(ENTERS)
+        if rng.random() < 0.15:      # an edit in the middle of the line
+            data = data[:2] + b'\x1b[D' + b'Z' + b'\x7f' + b'\x1b[C' + data[2:]
+        if k < 4:
+            ops += ['sel %d' % k] + ['recv ' + hx(sg) for sg in segments(rng, [bytes([c]) for c in data])]
+        elif k < 6:
+            if rng.random() < 0.3:
+                data = rng.choice([b'\xff\xfd\x01', b'\xff\xfe\x03', b'\xff\xf1', b'\xff\xfa\x1f\x00\x50\x00\x18\xff\xf0', b'\xff\xfa\x1f\x01\xff\xf0', b'\xff\xff']) + data
+            ops += ['xrecv %d %s' % (k, hx(sg)) for sg in cut(rng, data)]
+        elif k == 6:
+            ops += ['xrecv 6 %s' % hx(sg) for sg in (cut(rng, data) if rng.random() < 0.3 else [data])]
+        else:
+            ops += ['srecv ' + hx(sg) for sg in (segments(rng, [bytes([c]) for c in data]) if rng.random() < 0.3 else [data])]
+        r = rng.random()
+        if r < 0.15: ops.append('pass')
+        elif r < 0.20 and 4 <= k < 7: ops.append('xdisc %d' % k)
+        elif r < 0.23 and k < 4: ops += ['sel %d' % k, 'close']
+        elif r < 0.25 and k == 7: ops.append('sstop')
+        elif r < 0.27: ops.append('teardown'); active = []
+    ops.append('pass')
+    for k in active:      # every session shows its own history at the end
+        h = hx('history\r\n')
+        ops += (['sel %d' % k, 'recv ' + h] if k < 4 else ['xrecv %d %s' % (k, h)] if k < 7 else ['srecv ' + h])
+    return ops
+
+
+def gen_builtin(rng):
+    """directed: cycles, a mount of the root below itself, deleted directories and functions still mounted;
+    every built-in command is pointed at them"""
+    ops = ['mkdir', 'mkdir', 'mkdir', 'mkfunc', 'mkfunc',
+           'mount 0 1 ' + hx('a'), 'mount 1 2 ' + hx('b'), 'mount 2 1 ' + hx('c'), 'mount 2 0 ' + hx('r'),
+           'mount 2 3 ' + hx('d'), 'mount 0 4 ' + hx('f'), 'mount 3 5 ' + hx('g'), 'mount 1 4 ' + hx('f2')]
+    if rng.random() < 0.7: ops.append('rmnode %d' % rng.choice([3, 4, 5, 2]))
+    if rng.random() < 0.3: ops.append('umount %d %s' % (rng.choice([1, 2]), hx(rng.choice(['b', 'c', 'f2']))))
+    ops.append('open %d' % rng.choice([0, 1]))
+    paths = ['a', 'a/b', 'a/b/c', 'a/b/c/b', 'a/b/r', 'a/b/r/a', 'a/b/d', 'a/b/d/g', 'f', 'a/f2', '/a/b/../b/c/./b', '..', 'a/..', 'a/b/d/..',
+             '/', '.', '', 'a//b', 'nope', 'a/nope', 'f/x', 'a/b/c/b/c/b/c/b']
+    for _ in range(rng.randrange(4, 14)):
+        c = rng.choice(['cd', 'cd', 'ls', 'ls', 'tree', 'tree', 'help', 'pwd', ''])
+        pth = rng.choice(paths)
+        line = (c + ' ' + pth).strip() if c else pth
+        if c == 'pwd': line = 'pwd'
+        ops.append('recv ' + hx(line + '\r\n'))
+        if rng.random() < 0.1: ops.append('rmnode %d' % rng.randrange(1, 6))
+    ops.append('recv ' + hx('pwd;tree;ls\r\n'))
+    return ops
+
+
+SPLIT_ALPHA = ['a', 'b', ' ', ' ', '\t', '"', "'", '=', '-', 'x y', '""', "''", '"a b"', "'c\"d'", 'k="v w"', 'a"b c"d', "e'f g'"]
+
+
+def gen_split(rng):
+    ops = []
+    for _ in range(rng.randrange(3, 12)):
+        t = ''.join(rng.choice(SPLIT_ALPHA) for _ in range(rng.randrange(0, 9)))
+        if rng.random() < 0.1: t = ''.join(chr(rng.randrange(0x20, 0x7f)) for _ in range(rng.randrange(0, 20)))
+        ops.append('split ' + hx(t))
+    return ops
+
+
 def gen(rng, tier):
     n = 120 if tier == 'quick' else 8000
     # a malformed op stream: both sides must answer bad-op
     yield ['recv 00', 'open 4', 'open 1', 'open 1', 'recv 0g', 'opt 9', 'mount 0 7 61', 'rmnode 0', 'frob', 'trecv 00', 'tconn', 'tconn',
-           'tdisc x', 'rsend', 'winsz 70000 1', 'umount 3 61', 'recv']
-    # the six repaired defects, minimal (also in corpus/C13)
+           'tdisc x', 'rsend', 'winsz 70000 1', 'umount 3 61', 'recv', 'sel 4', 'sel 1', 'recv 00', 'xconn 3', 'xconn 7', 'xrecv 4 00',
+           'xconn 4', 'xconn 4', 'xdisc 5', 'srecv 00', 'sstop', 'split', 'split 0', 'sstart', 'sstart', 'teardown', 'xrecv 4 00']
+    # the repaired defects, minimal (also in corpus/C13)
     yield ['open 0', 'recv ' + hx('exit;exit\r\n'), 'pass']
     yield ['open 0', 'recv ' + hx('!!\r\n')]
     yield ['open 0', 'recv ' + hx('!99999999999\r\n')]
     yield ['open 0', 'recv ' + hx('!-2147483648\r\n')]
     yield ['tconn', 'trecv fffa1f01fff0']
     yield ['tconn', 'tend', 'tsend']
+    yield ['open 0', 'recv ' + hx('exit\r\n'), 'teardown', 'open 0', 'recv ' + hx('pwd\r\n')]
+    yield ['xconn 4', 'xrecv 4 ' + hx('exit\r\n'), 'teardown']
     for _ in range(n):
         yield gen_shell(rng, rng.choice([2, 4, 8, 14]))
     for _ in range(n // 2):
@@ -340,6 +434,12 @@ def gen(rng, tier):
         yield gen_hostile(rng)
     for _ in range(n):
         yield gen_telnet(rng)
+    for _ in range(n):
+        yield gen_multi(rng, rng.choice([6, 12, 25]))
+    for _ in range(n // 2):
+        yield gen_builtin(rng)
+    for _ in range(n // 3):
+        yield gen_split(rng)
 
 
 def nontrivial(ops, model_lines):
@@ -349,31 +449,45 @@ def nontrivial(ops, model_lines):
         return 1
     if any(l.startswith(('P win', 'P setopt', 'P str')) for l in model_lines) and sum(1 for o in ops if o[1:5] == 'recv') >= 2:
         return 1
+    if tags & {'tree-cycle', 'child-deleted', 'node-deleted', 'tree-node-deleted', 'cd-func', 'ls-func', 'tree-func', 'tree-depth2'}:
+        return 1
+    if len({l.split()[2] for l in model_lines if l.startswith('P tx ') and len(l.split()) == 4}) >= 2:
+        return 1          # at least two sessions produced output
+    if any(l.startswith('P split ok') and int(l.split()[3]) >= 2 for l in model_lines) or any(l == 'P split fail' for l in model_lines):
+        return 1
     return None
 
 
 RULE = ('op files from props/C13/plugin.py gen(): shell sessions over random node trees (typed command lines with mid-line edits, '
         'history walks, history references with boundary/huge/negative/malformed integers, exit sequences, loop passes), '
-        'hostile byte streams, telnet/raw-TCP byte streams in random segmentations; non-trivial = the model run takes a '
-        'mid-line edit, a history walk, a history reference, a full-history store, tree/user/exit command, or a telnet case '
-        'delivers events over at least two segments; distinct = distinct op text')
-TRUSTED = ['model lean/TboxModel/C13/Model.lean is hand-written from modules/terminal/impl/*.cpp, util/split_cmdline.cpp, util/string.cpp; '
-           'tied by differential runs (ASan+UBSan build of the working tree)',
+        'hostile byte streams, telnet/raw-TCP byte streams in random segmentations, several interleaved sessions on one terminal '
+        '(4 recording connections, 2 telnet clients, 1 raw-TCP client, the stdio service; connects/disconnects/reconnects, exit, '
+        'teardown), directed built-in command cases over cyclic trees and deleted nodes, direct SplitCmdline calls; non-trivial = '
+        'the model run takes a mid-line edit, a history walk, a history reference, a full-history store, tree/user/exit command, '
+        'a cycle/deleted-node branch of a built-in, output from at least two sessions, a split with >= 2 arguments or a failure, '
+        'or a telnet case delivers events over at least two segments; distinct = distinct op text')
+TRUSTED = ['model lean/TboxModel/C13/Model.lean is hand-written from modules/terminal/impl/*.cpp (incl. service/telnetd, tcp_rpc, stdio), '
+           'util/split_cmdline.cpp, util/string.cpp; tied by differential runs (ASan+UBSan build of the working tree)',
            'lean/TboxModel/C13/Gen.lean (key scanner table) is dumped from the running implementation on every run; the dump code is in props/C13/harness.cpp',
-           'Telnetd::Impl/TcpRpc::Impl are driven directly (onTcpConnected/onTcpReceived with an exactly sized Buffer) instead of through a socket; '
-           'TcpServer, sockets and the event loop below them are not part of the model',
+           'network::TcpServer is replaced by a recording stub defined in the harness (tcp_server.cpp is not linked): Telnetd::Impl/TcpRpc::Impl '
+           'are driven through onTcpConnected/onTcpReceived/onTcpDisconnected with an exactly sized Buffer; sockets, TcpConnection and '
+           'TcpAcceptor are not part of the model. The stdio service runs on the real StdioStream/BufferedFd with fds 0/1 redirected to pipes '
+           '(termios calls fail harmlessly on a pipe)',
+           'output lines of one op are grouped by session slot: the order of sends between DIFFERENT sessions within one op is not compared',
            'string constants (lean/TboxModel/C13/Msgs.lean) are transcribed by hand; a changed message text shows up as a P-divergence']
-ASSUMPTIONS = ['the host program never deletes the root node and destroys the Terminal only after draining the loop',
+ASSUMPTIONS = ['the host program never deletes the root node',
                'command nodes (user functions) do not modify the node tree or the session while they run',
                'isprint/islower behave as in the C locale (the scanner table is dumped under the harness locale)',
-               'one session per case; memory safety below index logic is observed by ASan/UBSan on the implementation only']
+               'stdio segments are at most 512 bytes (one read per loop pass); pipe writes of the service never block',
+               'memory safety below index logic is observed by ASan/UBSan on the implementation only']
 LEVEL_TEXT = ('Lean 4 theorems over a hand-written model of the terminal shell (line editor refines a zipper reference editor for every key '
               'sequence; one prompt per Enter; history = last 20 stored lines; !n/!-n/!! address exactly the specified entry for every '
-              'integer text; no op/byte sequence reaches a crash/exception/invalid-access outcome; telnet IAC framing) plus the key '
-              'scanner table dumped from the running code and checked by decide; model tied to the code on every run by differential '
-              'execution (ASan+UBSan)')
+              'integer text; no op/byte sequence over any number of interleaved sessions reaches a crash/exception/invalid-access outcome; '
+              'sessions are independent and stale session tokens never alias; telnet IAC framing is segmentation independent; SplitCmdline '
+              'contract) plus the key scanner table dumped from the running code and checked by decide; model tied to the code on every run by '
+              'differential execution (ASan+UBSan) through recording connections, the real telnet/raw-TCP/stdio services and direct calls')
 LEVEL_NOTE = ('trusted: Lean kernel, hand-written model + differential tie (coverage bounded by the generator, measured in evidence); the model '
-              'describes the tree with patches/C13-01..06 applied - on the unpatched tree the check reports the six defects as violations')
+              'describes the tree with patches/C13-01..07 applied - on a tree without 07 the check reports the teardown use-after-free')
 TECHNIQUE = 'Lean 4 refinement/invariant proofs over an executable model + generated scanner table + model/implementation correspondence check'
 DESIGN_REF = 'DESIGN.md §6 C13'
 
